@@ -479,7 +479,8 @@ def check_term(ctx, pool, t):
         got = nums[key]
         sc = scale * (want.shape[0] if key in ("complex-matvec", "matmat") else 1.0) if want.ndim else scale
         ctx.check_close(sig + "/" + key, case, got, want, TOL, "algebra:" + key, scale=max(sc, 1e-300))
-    if ref[0] in ("bop", "blk", "disc") and np.iscomplexobj(nums["dense"]) != np.iscomplexobj(ref[2]) and np.iscomplexobj(ref[2]):
+    # a real-typed result is only wrong where the represented matrix has an imaginary part (an identically zero product may keep a real dtype)
+    if ref[0] in ("bop", "blk", "disc") and not np.iscomplexobj(nums["dense"]) and np.iscomplexobj(ref[2]) and np.any(np.imag(ref[2]) != 0):
         ctx.violation(sig + "/dtype", case, "complex operands gave a real matrix")
 
 
